@@ -398,6 +398,9 @@ class Exec:
         if k == 'cindex':
             if isinstance(v, Bytes):
                 v = bytes_to_agg(v)
+            if isinstance(v, z3.ExprRef) and z3.is_bv(v) and v.size() > 64 and v.size() % 8 == 0 and 0 <= pr[1] < v.size() // 8:
+                hi = v.size() - 1 - 8 * pr[1]
+                return z3.Extract(hi, hi - 7, v)
             if isinstance(v, Agg) and pr[1] < len(v.fields):
                 return v.fields[pr[1]]
             if isinstance(v, Sym):
@@ -413,6 +416,9 @@ class Exec:
             iv = pr[2] if len(pr) > 2 else None
             if isinstance(v, Bytes):
                 v = bytes_to_agg(v)
+            if iv is not None and isinstance(v, z3.ExprRef) and z3.is_bv(v) and v.size() > 64 and v.size() % 8 == 0 and iv < v.size() // 8:
+                hi = v.size() - 1 - 8 * iv
+                return z3.Extract(hi, hi - 7, v)                   # byte `iv` of a `[u8; N]` modelled as a big-endian bit-vector
             if iv is not None and isinstance(v, Agg) and v.kind == 'array' and iv < len(v.fields):
                 return v.fields[iv]
             return Sym(f'{vname(v)}[?]', '')
@@ -718,12 +724,26 @@ class Exec:
             if rv[1] == 'Neg' and isinstance(a, z3.ExprRef):
                 return -a
             if rv[1] == 'PtrMetadata':
+                tgt = None
+                if isinstance(a, Ptr):
+                    try:
+                        tgt = self.read_loc(p, frame, a.key, a.projs)
+                    except Unmodelled:
+                        tgt = None
+                if isinstance(tgt, Bytes):
+                    tgt = bytes_to_agg(tgt)
+                if isinstance(tgt, Agg) and tgt.kind == 'array':
+                    return z3.BitVecVal(len(tgt.fields), 64)
+                if isinstance(tgt, z3.ExprRef) and z3.is_bv(tgt) and tgt.size() > 64 and tgt.size() % 8 == 0:
+                    return z3.BitVecVal(tgt.size() // 8, 64)       # `[u8; N]` newtype modelled as one big-endian bit-vector
                 return z3.BitVec(f'len({vname(a)})', 64)
             raise Unmodelled(f'unop {rv[1]} on {vrepr(a)}')
         if k == 'len':
             v = self.read_place(p, frame, rv[1])
             if isinstance(v, Agg) and v.kind == 'array':
                 return z3.BitVecVal(len(v.fields), 64)
+            if isinstance(v, z3.ExprRef) and z3.is_bv(v) and v.size() > 64 and v.size() % 8 == 0:
+                return z3.BitVecVal(v.size() // 8, 64)
             return z3.BitVec(f'len({vname(v)})', 64)
         if k == 'cast':
             v = self.operand(p, frame, rv[1])
